@@ -302,11 +302,29 @@ func (e *Exec) run(ct *Contract, fi *FuncInfo, lit *ast.FuncLit) {
 		}
 		for _, k := range keysOf(e.allocKinds) {
 			if !decl[k] {
+				if k == "cell" || k == "map" {
+					// temporaries (an address-of cell, a scratch map): noted, not an error - callers are told nothing about
+					// them, which is sound as long as they do not escape through a result (assumption, listed in the evidence)
+					e.note("contract of %s: allocates a %s that its allocates clause does not list (treated as a temporary)", ct.Key, k)
+					e.externs["undeclared temporary allocation ("+k+") in "+ct.Key+" assumed not to escape"] = true
+					continue
+				}
 				e.errorf("contract of %s: allocates clause does not list kind %q", ct.Key, k)
 			}
 		}
 	} else if ct.HasMod && !ct.Allocs && len(e.allocKinds) > 0 {
-		e.errorf("contract of %s: the function allocates %v but has no allocates clause (callers would not see the new objects)", ct.Key, keysOf(e.allocKinds))
+		var hard []string
+		for _, k := range keysOf(e.allocKinds) {
+			if k == "cell" || k == "map" {
+				e.note("contract of %s: allocates a %s but has no allocates clause (treated as a temporary)", ct.Key, k)
+				e.externs["undeclared temporary allocation ("+k+") in "+ct.Key+" assumed not to escape"] = true
+				continue
+			}
+			hard = append(hard, k)
+		}
+		if len(hard) > 0 {
+			e.errorf("contract of %s: the function allocates %v but has no allocates clause (callers would not see the new objects)", ct.Key, hard)
+		}
 	}
 	if ct.HasMod && e.mode == "seq" {
 		// (in concurrent mode protected state changes by interference at every acquire; the frame is a sequential notion)
